@@ -340,6 +340,20 @@ func runC12(t *testing.T, spec RunSpec) *RunResult {
 				}
 			}
 			if ph.Kind == "kg-ok" && len(res.Violations) == 0 {
+				// every party of one key generation derives its stored data from the same broadcast transcript
+				var first []byte
+				for _, c := range calls {
+					var st scripted.Stored
+					if c.call.Err == nil && json.Unmarshal(c.call.Out, &st) == nil {
+						if first == nil {
+							first = st.Transcript
+						} else if !bytes.Equal(first, st.Transcript) {
+							viol("session-output-differs", fmt.Sprintf("phase %d: parties of one key generation hold different transcripts; history so far: %s", pi, historySummary(cfg.Phases[:pi+1])))
+						}
+					}
+				}
+			}
+			if ph.Kind == "kg-ok" && len(res.Violations) == 0 {
 				for _, c := range calls {
 					stored[c.node] = c.call.Out
 					d.Parties[c.node].SetStoredData(c.call.Out)
